@@ -35,6 +35,8 @@ pub fn show_event(e: &ClientSessionEvent) -> String {
         UnhandleableOnStatusCode { code } => format!("E:UnhStatus:{}", hex(code.as_bytes())),
         AcknowledgementReceived { bytes_received } => format!("E:Ack:{}", bytes_received),
         PingResponseReceived { timestamp } => format!("E:Pong:{}", timestamp.value),
+        #[allow(unreachable_patterns)]
+        _ => "E:Other".into(),
     }
 }
 
@@ -50,6 +52,8 @@ pub fn show_err(e: &ClientSessionError) -> String {
         ClientSessionError::CreateStreamFailed => "ERR:CreateStreamFailed".into(),
         ClientSessionError::CreateStreamResponseHadNoStreamNumber => "ERR:NoStreamNumber".into(),
         ClientSessionError::InvalidOnStatusArguments => "ERR:InvalidOnStatus".into(),
+        #[allow(unreachable_patterns)]
+        _ => "ERR:Other".into(),
     }
 }
 
